@@ -318,4 +318,35 @@ def run(ctx):
     run.rule(R9, "a restore that died between its per-output commits and its last step is finished by the next scan: the index / account step is fed from every output found on chain, whether or not this run had to restore it", floor=1)
     from .C15 import scan_index_covers_all
     scan_index_covers_all(ctx, R9)
+    R10 = "C06.R10"
+    run.rule(R10, "a failing (error-returning) write stops the operation: from the error edge of a persistent effect (batch write, commit, stored-transaction file) the function reaches neither a further persistent effect nor an Ok return - the caller can repeat the step, nothing later was built on a write that did not happen", floor=40)
+    EFF10 = ("store_tx", "save", "save_tx_log_entry", "commit", "delete", "lock_output", "save_private_context", "delete_private_context", "save_child_index", "save_acct_path", "save_last_confirmed_height", "save_last_scanned_block", "save_init_status", "next_tx_log_id", "delete_tx_log_entry")
+    from ..callgraph import non_production as _np10
+    n10 = 0
+    for fid, f in sorted(db.fns.items()):
+        if _np10(fid) or not fid.startswith(c.LW):
+            continue
+        eff10 = okr10 = None
+        for b, t in f.calls():
+            cal = t.get("f") or ""
+            if not (cal.startswith(c.WOB) or cal.startswith(c.WB)) or cal.split("::")[-1] not in EFF10:
+                continue
+            if not (t.get("dty") or "").startswith("core::result::Result<"):
+                continue
+            g = cfg.call_guard(f, b)
+            if not g.fail:
+                continue
+            n10 += 1
+            if eff10 is None:
+                eff10 = ctx.eff.effect_blocks(f)
+                okr10 = cfg.ok_value_blocks(f)
+            after = cfg.reach(f, starts=[d for (_s, d) in g.fail], cut_edges=g.ok, cut_nodes=frozenset({b}))
+            w = sorted(x for x in after if x in eff10)
+            o = sorted(x for x in after if x in okr10)
+            held = not w and not o
+            run.instance(R10, {"fn": pp.short(fid), "effect": cal.split("::")[-1], "site": c.site_of(f, b), "effects after the failure": len(w), "Ok returns after the failure": len(o)}, held=held)
+            if not held:
+                run.finding(Finding(R10, fid, "after a failed %s the function goes on (%s): the operation reports success, or builds further state, on a write that did not happen" % (cal.split("::")[-1], "further persistent effects" if w else "an Ok return"), site=c.site_of(f, b)))
+    if n10 < 40:
+        run.error("C06.R10: only %d persistent effects with an error edge found (anchor missing)" % n10)
     run.not_decided += ["that the invariants hold at every crash point of every multi-batch operation (an enumeration over executions); R1-R3 are the structural conditions the code relies on", "LMDB's own atomicity / durability", "file-system semantics of rename/remove"]
